@@ -1,5 +1,5 @@
 SPEC = {
-    "lean_modules": ["AM.Props.Registry", "AM.Props.C19"],
+    "lean_modules": ["AM.Props.Registry", "AM.Props.C19", "AM.Props.C09"],
     "theorems": [
         "AM.Registry.targets_are_live_members", "AM.Registry.join_makes_member", "AM.Registry.leave_of_other_keeps_member", "AM.Registry.address_keyed_table_marks_live_peer_failed",
         "AM.ConnPool.borrow_alive", "AM.ConnPool.inv_send", "AM.ConnPool.recovers_after_one_failure", "AM.ConnPool.delivered_stays_delivered", "AM.ConnPool.stale_entry_never_recovers",
@@ -9,12 +9,17 @@ SPEC = {
         "AM.Gossip.bad_part_does_not_block_others", "AM.Gossip.duplicate_inert", "AM.Gossip.full_state_superset",
         "AM.Gossip.mergeRemote_monotone", "AM.Gossip.mergeRemote_covers", "AM.Gossip.lookup_mergeKV",
         "AM.Gossip.bad_part_blocks_others_old", "AM.Gossip.f5_repaired", "AM.Gossip.old_agrees_without_failure",
+        # the relay step of the dissemination is the receivers' Merge: every accepted update goes back to the gossip layer
+        "AM.Silence.accepted_iff_changed", "AM.Silence.merge_relays_accepted", "AM.Silence.merge_update_relayed",
     ],
     "engines": [
         {"name": "gossip", "pkg": "./gossip", "search_cases": 15000},
         {"name": "mesh", "pkg": "./mesh", "search_cases": 6, "timeout_quick": 300, "timeout_thorough": 900},
         # the TLS gossip transport: concurrent senders on the pooled connection of one peer
         {"name": "tlsframe", "pkg": "./tlsframe", "search_cases": 200, "timeout_quick": 300},
+        # "a broadcast reaches every peer": memberlist transmits an update a bounded number of times, the rest of the fan-out is the
+        # re-broadcast by every receiver whose Merge accepted it (C09's engine: what Silences.Merge hands back to its broadcast function)
+        {"name": "silmerge", "pkg": "./silmerge", "search_cases": 20000, "quick_cases": 1500, "only": ["merge_relays_accepted"]},
     ],
     "rule": "gossip: two real cluster delegates (tagged export) over last-writer-wins test states with registries drawn from {sil,nfl},{sil},{nfl},{nfl,sil,xtra}; "
             "NotifyMsg with well-formed parts (known / unknown key, good / rejected payload) and arbitrary bytes; MergeRemoteState with 1-3 parts incl. rejected "
